@@ -53,13 +53,20 @@ def render(kind, n, rel, meta=None):
         body = "".join(f"  subroutine p{i}(self)\n" + md(i, "    ") + "    class(box) :: self\n" + "".join(f"    call self%g{j}()\n" for j in succ[i])
                        + f"  end subroutine p{i}\n" for i in range(1, n + 1))
         return {"tb.f90": head + body + "end module tb\n"}
+    if kind == "icalls":
+        # the relation among INTERNAL procedures q1..qn of one module procedure; the host calls every one of them
+        inner = "".join(f"    subroutine q{i}()\n" + "".join(f"      call q{j}()\n" for j in succ[i]) + f"    end subroutine q{i}\n" for i in range(1, n + 1))
+        return {"host.f90": "module hostm\ncontains\n  subroutine host0()\n" + "".join(f"    call q{i}()\n" for i in range(1, n + 1)) + "  contains\n" + inner
+                            + "  end subroutine host0\nend module hostm\n"}
     if kind == "calls":
         body = "".join(f"  subroutine p{i}()\n" + md(i, "    ") + "".join(f"    call p{j}()\n" for j in succ[i]) + f"  end subroutine p{i}\n" for i in range(1, n + 1))
         return {"procs.f90": f"module procs\ncontains\n{body}end module procs\n"}
     if kind == "comp":
         body = "".join(f"  type :: t{i}\n" + md(i, "    ") + f"    integer :: own{i}\n" + "".join(f"    type(t{j}), pointer :: c{i}_{j}\n" for j in succ[i]) + f"  end type t{i}\n"
                        for i in range(n, 0, -1))
-        return {"types.f90": f"module types\n{body}end module types\n"}
+        # one more type extends t1: it inherits t1's components, it does not contain them a second time
+        child = f"  type, extends(t1) :: t{n + 1}\n    integer :: own{n + 1}\n  end type t{n + 1}\n" if meta.get("_child") else ""
+        return {"types.f90": f"module types\n{body}{child}end module types\n"}
     if kind == "ext":
         body = "".join(f"  type{', extends(t%d)' % succ[i][0] if succ[i] else ''} :: t{i}\n" + md(i, "    ") + f"    integer :: own{i}\n  end type t{i}\n" for i in range(n, 0, -1))
         return {"types.f90": f"module types\n{body}end module types\n"}
@@ -134,8 +141,8 @@ def evaluate(case):
         files = render(kind, n, rel, {i: [f"graph_maxdepth: {depth}", f"graph_maxnodes: {limit}"] for i in range(1, n + 1)})
         depth_, limit_ = 10000, 1000000000
     else:
-        files = render(kind, n, rel)
-        depth_, limit_ = (10000, 1000000000) if kind == "tbcalls" else (depth, limit)
+        files = render(kind, n, rel, {"_child": True} if (kind == "comp" and case.get("full")) else None)
+        depth_, limit_ = (10000, 1000000000) if kind in ("tbcalls", "icalls") else (depth, limit)
     try:
         project, gm = build_graphs(files, depth_, limit_)
     except Exception as ex:
@@ -153,6 +160,13 @@ def evaluate(case):
         ents = {_num(t.name): t for t in project.types}
         attr = ("inhergraph", "inherbygraph")
     bad = []
+    if kind == "icalls":
+        # internal procedures are documented (proc_internals): their calls are edges of the project-wide call graph
+        nodes, edges, _ = graph_obs(gm.callgraph)
+        q = {(a, b) for (a, b) in edges if 0 < a <= n and 0 < b <= n}
+        if q != rel:
+            bad.append(f"project-wide call graph: calls among the internal procedures {sorted(q)}, the source has {sorted(rel)}")
+        return {"bad": bad, "files": files if bad else None, "events": len(REC)}
     if kind == "tbcalls":
         ents = {_num(p.name): p for p in project.procedures if re.fullmatch(r"p\d+", p.name)}
         for r in case["refs"]:
@@ -185,6 +199,10 @@ def evaluate(case):
                     bad.append(f"root {r['root']} {a}: no graph object")
                 continue
             nodes, edges, table = graph_obs(g)
+            if kind == "comp" and case.get("full"):        # the additional child type t(n+1) is judged on its own below
+                nodes = {x for x in nodes if x != n + 1}
+                edges = {(a_, b_) for (a_, b_) in edges if n + 1 not in (a_, b_)}
+                table = {x for x in table if x != n + 1}
             want_nodes = set(ref["nodes"])
             emin = {tuple(x) for x in ref["emin"]}
             eind = {tuple(x) for x in ref["eind"]}
@@ -199,6 +217,19 @@ def evaluate(case):
                 bad.append(f"root {r['root']} {a}: dangling edge in {sorted(edges)}")
             if table != set(ref["table"]):
                 bad.append(f"root {r['root']} {a}: table fallback {sorted(table)} expected {sorted(ref['table'])}")
+    if kind == "comp" and case.get("full") and not case.get("per_entity"):
+        ch = next((t for t in project.types if _num(t.name) == n + 1), None)
+        g = getattr(ch, "inhergraph", None) if ch is not None else None
+        if g is None:
+            bad.append(f"type t{n + 1} (extends t1): no inherits graph")
+        else:
+            nodes, edges, _ = graph_obs(g)
+            reach1 = set(next(r["fwd"]["nodes"] for r in case["refs"] if r["root"] == 1))
+            own = {(a, b) for (a, b) in edges if a == n + 1}
+            rest = {(a, b) for (a, b) in edges if a != n + 1}
+            if own != {(n + 1, 1)} or not rest <= rel or not nodes <= reach1 | {n + 1}:
+                bad.append(f"type t{n + 1} extends t1 (and declares no component of derived type): its inherits graph has the edges {sorted(own)} from it "
+                           f"(expected only the extension edge to t1), other edges {sorted(rest - rel)} outside the relation, nodes {sorted(nodes)}")
     # direction 2: every recorded add_to_graph call obeys the hop machine's acceptance rule
     for ev in REC:
         should = not (ev["n_new"] + ev["before"] > ev["limit"])
@@ -282,6 +313,8 @@ def run(tier, seed, ck: Check):
                 cases.append(dict(c, kind=kind, n=n))
             if c["depth"] == dmax and c["limit"] == lmax:       # unlimited graphs only: a call through a binding takes two hops
                 cases.append(dict(c, kind="tbcalls", n=n))
+                cases.append(dict(c, kind="icalls", n=n))
+                cases[-3]["full"] = True                        # the composition case above also gets a type that extends t1
         for c in acy:
             cases.append(dict(c, kind="uses", n=4))
             cases.append(dict(c, kind="files", n=4))
@@ -296,7 +329,7 @@ def run(tier, seed, ck: Check):
         elif len(cases) > 120000:
             cases = rng.sample(cases, 120000)
         for c in cases:
-            c["per_entity"] = zlib.crc32(json.dumps([c["rel"], c["kind"]]).encode()) % 4 == 0 and c["kind"] != "tbcalls"
+            c["per_entity"] = zlib.crc32(json.dumps([c["rel"], c["kind"]]).encode()) % 4 == 0 and c["kind"] not in ("tbcalls", "icalls")
         results = pool.pmap(evaluate, cases, chunksize=20)
         nev = 0
         for c, r in zip(cases, results):
@@ -309,7 +342,7 @@ def run(tier, seed, ck: Check):
                              detail=b, extra={"files": r["files"]})
         # `graph: false` on one entity (every 5th case, full limits)
         fcases = [dict(kind=c["kind"], n=c["n"], rel=c["rel"], k=1 + zlib.crc32(json.dumps(c["rel"]).encode()) % c["n"])
-                  for c in cases[::5] if c["depth"] == 3 and c["limit"] == 99 and c["kind"] not in ("files", "tbcalls")]
+                  for c in cases[::5] if c["depth"] == 3 and c["limit"] == 99 and c["kind"] not in ("files", "tbcalls", "icalls")]
         for c, r in zip(fcases, pool.pmap(evaluate_false, fcases, chunksize=20)):
             ck.count()
             ck.nontrivial_case(json.dumps(["graph-false", c["kind"], c["rel"], c["k"]]))
